@@ -3,7 +3,7 @@ Require Import Base RW.
 
 Lemma ev_eqb_eq a b : ev_eqb a b = true <-> a = b.
 Proof.
-  destruct a as [x|x n| |i x|x|x|x], b as [y|y m| |j y|y|y|y]; cbn; split; intros H;
+  destruct a as [x|x n| |i x|x|x|x|], b as [y|y m| |j y|y|y|y|]; cbn; split; intros H;
     try discriminate; try reflexivity.
   - apply Z.eqb_eq in H; congruence.
   - inversion H; subst; apply Z.eqb_refl.
@@ -28,40 +28,50 @@ Proof.
   destruct e; cbn [app observe]; apply IH.
 Qed.
 
-Lemma observe_hooks j ids z : observe j (map (fun id => EHook id z) ids) = j.
-Proof. induction ids as [|i ids IH]; cbn; auto. Qed.
+Lemma observe_cb j z l : observe j (fst (call_before z l)) = j.
+Proof.
+  induction l as [|[id p] l IH]; [reflexivity|]. cbn [call_before]. destruct p; [reflexivity|].
+  destruct (call_before z l) as [es b]. cbn [fst] in *. cbn [observe]. exact IH.
+Qed.
 
 (* the judge state is exactly what the model state says *)
 Definition rel (s : st) (j : judge) : Prop :=
   sent j = (if Z.eqb (status s) 0 then None else Some (status s)) /\
-  fwd j = size s /\ regs j = hooks s /\ once s = negb (Z.eqb (status s) 0).
+  fwd j = size s /\ regs j = hooks s /\ fired j = once s /\
+  (Z.eqb (status s) 0 = false -> once s = true).
 
 Lemma rel_init : rel init jinit.
-Proof. repeat split. Qed.
+Proof. repeat split. intros H; discriminate. Qed.
 
 Lemma step_ok head s j o :
   rel s j -> valid_op o = true ->
   snd (step head s o) = expected head j o /\
   rel (fst (step head s o)) (jstep j o (snd (step head s o))).
 Proof.
-  intros (Hs & Hf & Hr & Ho) V.
-  destruct j as [sj fj rj]; cbn [sent fwd regs] in *.
-  destruct s as [stt sz hk on]; cbn [status size hooks once] in *. subst fj rj on.
+  intros (Hs & Hf & Hr & Ho & Hi) V.
+  destruct j as [sj fj rj fr]; cbn [sent fwd regs fired] in *.
+  destruct s as [stt sz hk on]; cbn [status size hooks once] in *. subst fj rj fr.
   destruct (Z.eqb stt 0) eqn:E0; subst sj.
   - (* nothing sent yet *)
-    apply Z.eqb_eq in E0. subst stt.
-    destruct o as [c|bs acc| |id| | |]; try destruct head;
-      cbn [step ensure_header write_header status size hooks once negb Z.eqb fst snd
-           expected is_trigger trigger_code sent fwd regs valid_op] in *;
-      rewrite ?app_nil_r;
-      (split; [reflexivity|]); unfold jstep, rel;
-      rewrite ?observe_app, ?observe_hooks; cbn;
-      try (destruct (Z.eqb c 0); [discriminate|]); repeat split; reflexivity.
+    apply Z.eqb_eq in E0. subst stt. clear Hi.
+    pose proof (observe_cb (mkj None sz hk on) 0 (rev hk)) as OC.
+    destruct o as [c|bs acc| |id p| | |];
+      unfold step, ensure_header, write_header, expected, jstep;
+      cbn [status size hooks once sent fwd regs fired is_trigger trigger_code andb negb Z.eqb valid_op] in *;
+      try (destruct on; cbn [negb];
+           [| destruct (call_before 0 (rev hk)) as [es pan]; cbn [fst] in OC; destruct pan]);
+      try destruct head; cbn [orb fst snd status size hooks once];
+      rewrite ?app_nil_r, <- ?app_assoc;
+      (split; [reflexivity|]); unfold rel;
+      rewrite ?observe_app, ?OC; cbn [observe sent fwd regs fired status size hooks once orb];
+      try (destruct (Z.eqb c 0) eqn:Ec; [discriminate|]);
+      repeat split; try reflexivity; try (intros X; discriminate).
   - (* a status has been sent *)
-    destruct o as [c|bs acc| |id| | |]; try destruct head;
+    specialize (Hi eq_refl). subst on.
+    destruct o as [c|bs acc| |id p| | |]; try destruct head;
       unfold step, ensure_header, write_header, expected, jstep, rel;
-      cbn [status size hooks once sent fwd regs is_trigger fst snd negb];
-      rewrite ?E0; cbn [negb fst snd app observe status size hooks once sent fwd regs];
+      cbn [status size hooks once sent fwd regs fired is_trigger fst snd negb andb orb];
+      rewrite ?E0; cbn [negb fst snd app observe status size hooks once sent fwd regs fired orb];
       rewrite ?E0; repeat split; reflexivity.
 Qed.
 
@@ -93,25 +103,58 @@ Fixpoint count {A} (p : A -> bool) (l : list A) : nat :=
 Lemma count_app {A} (p : A -> bool) a b : count p (a ++ b) = count p a + count p b.
 Proof. induction a; cbn; lia. Qed.
 
-Lemma count_hooks p ids z : (forall i, p (EHook i z) = false) -> count p (map (fun id => EHook id z) ids) = 0.
-Proof. intros H. induction ids; cbn; rewrite ?H; auto. Qed.
+Lemma count_cb p z l : (forall i, p (EHook i z) = false) -> p EPanic = false -> count p (fst (call_before z l)) = 0.
+Proof.
+  intros H HP. induction l as [|[id q] l IH]; [reflexivity|]. cbn [call_before]. destruct q.
+  - cbn. rewrite H, HP. reflexivity.
+  - destruct (call_before z l) as [es b]. cbn [fst] in *. cbn [count]. rewrite H. exact IH.
+Qed.
 
-(* events an accepted operation may produce *)
-Lemma no_uwrite_hooks bs n ids z : ~ In (UWrite bs n) (map (fun id => EHook id z) ids).
-Proof. intros H. apply in_map_iff in H as (? & ? & _). discriminate. Qed.
+Lemma no_uwrite_cb bs n z l : ~ In (UWrite bs n) (fst (call_before z l)).
+Proof.
+  induction l as [|[id q] l IH]; [intros []|]. cbn [call_before]. destruct q.
+  - cbn. intuition discriminate.
+  - destruct (call_before z l) as [es b]. cbn [fst] in *. intros [H|H]; [discriminate | exact (IH H)].
+Qed.
 
+(* events an accepted operation may produce: at most one status line, none once one has been seen;
+   before functions only at the first attempt; nothing forwarded for HEAD *)
 Lemma expected_shape head j o :
   let es := expected head j o in
-  count is_wh es = (match sent j with None => if is_trigger o then 1 else 0 | Some _ => 0 end) /\
-  (sent j <> None -> count is_hook es = 0) /\
+  count is_wh es <= 1 /\
+  (sent j <> None -> count is_wh es = 0) /\
+  (sent j <> None \/ fired j = true -> count is_hook es = 0) /\
   (head = true -> forall bs n, ~ In (UWrite bs n) es).
 Proof.
-  destruct j as [[c|] f r]; destruct o as [c'|bs acc| |id| | |]; destruct head; cbn [expected sent regs is_trigger trigger_code];
-    (split; [|split]); try (intros; congruence);
-    rewrite ?count_app, ?count_hooks by reflexivity; cbn; try reflexivity; try lia;
-    intros _ bs' n' H; rewrite ?app_nil_r in H;
-    repeat (apply in_app_or in H as [H|H]); try (apply no_uwrite_hooks in H); cbn in H;
-    intuition discriminate.
+  cbv zeta. unfold expected.
+  pose proof (count_cb is_wh 0 (rev (regs j)) (fun _ => eq_refl) eq_refl) as W.
+  pose proof (no_uwrite_cb) as NU.
+  destruct (sent j) as [c|] eqn:Es; cbn [andb].
+  - (* a status has been seen: no attempt *)
+    rewrite andb_false_r. cbn [andb].
+    destruct o as [c'|bs acc| |id p| | |]; destruct head; cbn;
+      repeat split; try lia; try reflexivity; try (intros; congruence);
+      intros _ bs' n' H; cbn in H; intuition discriminate.
+  - rewrite andb_true_r.
+    destruct (is_trigger o) eqn:T; cbn [andb].
+    + destruct (fired j) eqn:Ef; cbn [negb].
+      * destruct o as [c'|bs acc| |id p| | |]; try discriminate; destruct head; cbn;
+          repeat split; try lia; try reflexivity; try (intros [X|X]; congruence); try (intros; congruence);
+          intros _ bs' n' H; cbn in H; intuition discriminate.
+      * destruct (call_before 0 (rev (regs j))) as [pre pan] eqn:CB. cbn [fst] in W.
+        specialize (NU) as NU'. 
+        assert (NUp : forall bs n, ~ In (UWrite bs n) pre) by (intros bs n; specialize (NU bs n 0%Z (rev (regs j))); rewrite CB in NU; exact NU).
+        destruct pan.
+        -- repeat split; try lia; try (intros; congruence); try (intros [X|X]; congruence).
+           intros _ bs n. apply NUp.
+        -- destruct o as [c'|bs acc| |id p| | |]; try discriminate; destruct head;
+             rewrite ?app_nil_r, ?count_app, ?W; cbn;
+             repeat split; try lia; try (intros; congruence); try (intros [X|X]; congruence);
+             intros _ bs' n' H; repeat (apply in_app_or in H as [H|H]); try (apply NUp in H; exact H);
+             cbn in H; intuition discriminate.
+    + destruct o as [c'|bs acc| |id p| | |]; try discriminate; cbn;
+        repeat split; try lia; try reflexivity; try (intros; congruence);
+        intros _ bs' n' H; cbn in H; intuition discriminate.
 Qed.
 
 Lemma observe_sent_some j es : sent j <> None -> sent (observe j es) = sent j.
@@ -136,6 +179,9 @@ Proof.
   rewrite observe_sent_some; cbn; destruct (sent j); congruence.
 Qed.
 
+Lemma jstep_sent j o es : sent (jstep j o es) = sent (observe j es).
+Proof. unfold jstep. destruct o; reflexivity. Qed.
+
 (* at most one status line reaches the underlying writer *)
 Lemma judge_one_status head : forall ops outs j,
   judge_from head j ops outs = true ->
@@ -144,17 +190,14 @@ Proof.
   induction ops as [|o ops IH]; intros [|es outs] j H; cbn [judge_from] in H; try discriminate.
   - cbn. destruct (sent j); lia.
   - apply andb_prop in H as [He H]. apply (list_eqb_eq ev_eqb ev_eqb_eq) in He. subst es.
-    cbn [concat]. rewrite count_app. apply IH in H.
-    destruct (expected_shape head j o) as (Hc & _ & _). rewrite Hc.
-    assert (S : sent (jstep j o (expected head j o)) = sent (observe j (expected head j o))).
-    { unfold jstep. destruct o; reflexivity. }
-    rewrite S in H. clear S.
+    cbn [concat]. rewrite count_app. apply IH in H. rewrite jstep_sent in H.
+    destruct (expected_shape head j o) as (H1 & H0 & _ & _).
     destruct (sent j) eqn:Ej.
-    + rewrite observe_sent_some in H by congruence. rewrite Ej in H. lia.
-    + destruct (is_trigger o).
-      * destruct (sent (observe j (expected head j o))) eqn:E2; [lia|].
-        exfalso. revert E2. apply observe_sent_wh. rewrite Hc. discriminate.
-      * destruct (sent (observe j (expected head j o))); lia.
+    + rewrite observe_sent_some in H by congruence. rewrite Ej in H. rewrite H0 by congruence. lia.
+    + destruct (Nat.eq_dec (count is_wh (expected head j o)) 0) as [Z|NZ].
+      * rewrite Z. rewrite observe_sent_none in H by exact Z. rewrite Ej in H. lia.
+      * apply (observe_sent_wh j) in NZ as NS.
+        destruct (sent (observe j (expected head j o))); [lia | congruence].
 Qed.
 
 Theorem spec_one_status head ops outs :
@@ -181,17 +224,27 @@ Proof.
     + destruct (is_body e); rewrite IH; cbn; [rewrite andb_assoc|]; reflexivity.
 Qed.
 
-Lemma status_first_hooks seen ids z : status_first seen (map (fun id => EHook id z) ids) = true.
-Proof. induction ids; cbn; auto. Qed.
+Lemma status_first_cb seen z l : status_first seen (fst (call_before z l)) = true.
+Proof.
+  induction l as [|[id q] l IH]; [reflexivity|]. cbn [call_before]. destruct q; [reflexivity|].
+  destruct (call_before z l) as [es b]. cbn [fst] in *. exact IH.
+Qed.
 
 Lemma expected_status_first head j o :
   status_first (match sent j with Some _ => true | None => false end) (expected head j o) = true.
 Proof.
-  destruct j as [[c|] f r]; destruct o; cbn; try reflexivity;
-    try (destruct head; reflexivity).
-  all: rewrite ?status_first_app, ?status_first_hooks, ?count_app, ?count_hooks by reflexivity; cbn;
-       try (destruct head; cbn; rewrite ?status_first_app, ?status_first_hooks; reflexivity);
-       reflexivity.
+  unfold expected.
+  pose proof (status_first_cb false 0 (rev (regs j))) as SF.
+  pose proof (count_cb is_wh 0 (rev (regs j)) (fun _ => eq_refl) eq_refl) as W.
+  destruct (sent j) as [c|] eqn:Es.
+  - rewrite andb_false_r. cbn [andb]. destruct o; cbn; try reflexivity; destruct head; reflexivity.
+  - rewrite andb_true_r. destruct (is_trigger o) eqn:T; cbn [andb].
+    + destruct (fired j); cbn [negb].
+      * destruct o; try discriminate; destruct head; reflexivity.
+      * destruct (call_before 0 (rev (regs j))) as [pre pan]. cbn [fst] in SF, W. destruct pan; [exact SF|].
+        destruct o; try discriminate; try destruct head;
+          rewrite ?app_nil_r, ?status_first_app, ?count_app, ?SF, ?W; cbn; reflexivity.
+    + destruct o; try discriminate; reflexivity.
 Qed.
 
 Lemma judge_status_first head : forall ops outs j,
@@ -202,11 +255,7 @@ Proof.
   - reflexivity.
   - apply andb_prop in H as [He H]. apply (list_eqb_eq ev_eqb ev_eqb_eq) in He. subst es.
     cbn [concat]. rewrite status_first_app, expected_status_first. cbn [andb].
-    apply IH in H.
-    assert (S : sent (jstep j o (expected head j o)) = sent (observe j (expected head j o))).
-    { unfold jstep. destruct o; reflexivity. }
-    rewrite S in H. clear S.
-    destruct (expected_shape head j o) as (Hc & _ & _).
+    apply IH in H. rewrite jstep_sent in H.
     destruct (sent j) eqn:Ej.
     + rewrite observe_sent_some in H by congruence. rewrite Ej in H. exact H.
     + cbn [orb]. destruct (Nat.eqb (count is_wh (expected head j o)) 0) eqn:E0.
@@ -227,6 +276,44 @@ Proof.
   - intros [].
   - apply andb_prop in H as [He H]. apply (list_eqb_eq ev_eqb ev_eqb_eq) in He. subst es.
     cbn [concat]. intros HIn. apply in_app_or in HIn as [HIn|HIn].
-    + destruct (expected_shape true j o) as (_ & _ & Hh). exact (Hh eq_refl bs n HIn).
+    + destruct (expected_shape true j o) as (_ & _ & _ & Hh). exact (Hh eq_refl bs n HIn).
     + exact (IH _ _ H bs n HIn).
 Qed.
+
+(* the before functions run during at most one operation (the first attempt to send a status) *)
+Definition has_hook (es : list ev) : bool := negb (Nat.eqb (count is_hook es) 0).
+
+Lemma jstep_fired j o es : fired j = true -> fired (jstep j o es) = true.
+Proof.
+  intros F. assert (O : fired (observe j es) = true).
+  { clear o. revert j F. induction es as [|e es IH]; intros j F; [exact F|]. destruct e; cbn [observe]; apply IH; exact F. }
+  unfold jstep. destruct o; cbn [fired]; rewrite ?O; reflexivity.
+Qed.
+
+Lemma observe_fired j es : fired (observe j es) = fired j.
+Proof. revert j. induction es as [|e es IH]; intros j; [reflexivity|]. destruct e; cbn [observe]; rewrite IH; reflexivity. Qed.
+
+Lemma judge_hooks_once head : forall ops outs j,
+  judge_from head j ops outs = true ->
+  count has_hook outs <= (if fired j then 0 else 1).
+Proof.
+  induction ops as [|o ops IH]; intros [|es outs] j H; cbn [judge_from] in H; try discriminate.
+  - cbn. destruct (fired j); lia.
+  - apply andb_prop in H as [He H]. apply (list_eqb_eq ev_eqb ev_eqb_eq) in He. subst es.
+    apply IH in H. cbn [count].
+    destruct (expected_shape head j o) as (_ & _ & HK & _).
+    destruct (fired j) eqn:Ef.
+    + rewrite jstep_fired in H by exact Ef. unfold has_hook at 1. rewrite HK by (right; reflexivity). cbn. lia.
+    + unfold has_hook at 1. destruct (Nat.eqb (count is_hook (expected head j o)) 0) eqn:E0; cbn [negb].
+      * destruct (fired (jstep j o (expected head j o))); lia.
+      * (* before functions ran: this operation was an attempt, so the judge marks it *)
+        assert (F : fired (jstep j o (expected head j o)) = true).
+        { apply Nat.eqb_neq in E0. unfold jstep. rewrite !observe_fired.
+          destruct (sent j) eqn:Es; [exfalso; apply E0, HK; left; congruence|].
+          destruct o; cbn [fired]; rewrite ?orb_true_r; try reflexivity;
+            exfalso; apply E0; unfold expected; rewrite Es; reflexivity. }
+        rewrite F in H. lia.
+Qed.
+
+Theorem spec_hooks_once head ops outs : spec_ok head ops outs = true -> count has_hook outs <= 1.
+Proof. intros H. apply (judge_hooks_once head ops outs jinit H). Qed.
